@@ -40,8 +40,10 @@ def case_strategy(draw):
     spec["cols"].append({"name": "fl", "kind": "float", "values": [[0.1 + 0.2, 0.3, 1e15, 1e15 + 1][i % 4] for i in range(n)]})
     # levels that differ only in blanks around them (fixed-width files) are different levels with different labels
     spec["cols"].append({"name": "ws", "kind": "str", "values": [["north", "north ", " north", "south"][(i * 3) % 4] for i in range(n)]})
+    # a level that is called like the constant column of the full-rank sum coding
+    spec["cols"].append({"name": "ms", "kind": "str", "values": [["mean", "alpha", "zeta"][(i * 2 + 1) % 3] for i in range(n)]})
     long_call = "I(" + " + ".join(["x", "z"] * 14) + ")"  # a term name of more than a hundred characters
-    extra = draw(st.sampled_from([None, None, None, "c1", "c1", "(c1 | g)", "offset(z)", "offset(2.5)", "offset(np.abs(x))", "C(fl)", "(1 | fl)", "ws", "C(ws)", "x:ws", "(1 | ws)", long_call,
+    extra = draw(st.sampled_from([None, None, None, "c1", "c1", "(c1 | g)", "offset(z)", "offset(2.5)", "offset(np.abs(x))", "C(fl)", "(1 | fl)", "ws", "C(ws)", "x:ws", "(1 | ws)", "ms", "S(ms)", "C(ms, Sum)", long_call,
                                   long_call + ":f"]))
     if extra is not None:
         trailer = " - 1" if d["formula"].rstrip().endswith("- 1") else ""
@@ -275,6 +277,25 @@ def judge(ctx, case):
 
 def replay(ctx, case):
     judge(ctx, case)
+
+
+def _kf_level_named_mean(case, clause, detail):
+    """KF-C17-1: under the full-rank sum coding the constant column is labelled `[mean]`; a factor that has a level called
+    `mean` which is kept gets that label twice.  Only this pair of labels, only for the sum-coded term on `ms`."""
+    import ast
+    import collections
+
+    if clause != "views" or "labels are not unique: " not in detail or case["design"].get("extra_term") not in ("S(ms)", "C(ms, Sum)"):
+        return False
+    try:
+        labels = ast.literal_eval(detail.split("labels are not unique: ", 1)[1])
+    except (ValueError, SyntaxError):
+        return False
+    twice = {l: c for l, c in collections.Counter(labels).items() if c > 1}
+    return twice == {case["design"]["extra_term"] + "[mean]": 2}
+
+
+KNOWN_CLASSES = {"sum_coded_level_named_mean": _kf_level_named_mean}
 
 
 def _worker(ctx, arg):
